@@ -21,6 +21,14 @@ def rep(s,name,body):
     i,j=s.index(a),s.index(b)
     return s[:i+len(a)]+'\n'+body+'\n'+s[j:]
 s=rep(s,'FIXTABLE',fixes); s=rep(s,'SEEDTABLE',seeded)
+# per-round summary (final state)
+rounds={'1 (a,b)':'ab','2 (c,d)':'cd','3 (e,f)':'ef','4 (g,h)':'gh','5 (i,j)':'ij','6 (k,l)':'kl'}
+lines=[]
+for name,letters in rounds.items():
+    ks=[k for k in res['seeded'] if k[3] in letters and os.path.isdir(f'/verif/seeded/{k}')]
+    own=sum(1 for k in ks if res['seeded'][k]['caught']); oth=sum(1 for k in ks if not res['seeded'][k]['caught'] and res['seeded'][k].get('caught_by_other'))
+    lines.append(f"round {name}: {len(ks)} kept, {own} caught by the own quick check, {oth} only by a neighbouring check, {len(ks)-own-oth} missed")
+s=rep(s,'ROUNDSUMMARY',"Final state of the matrix (quick tier, current checks): "+"; ".join(lines)+".")
 # mutation sweep summary
 import collections
 try:
